@@ -107,7 +107,7 @@ def monStep (st : St) (bl : Block) : St × List String :=
       | some l => { bl with outs := bl.outs.map fun o => if o == ["conn", "ended"] then fields l else o }
       | none => bl
     let (e', fl) := E2EStream.monStep' st.e bl
-    ({ st with e := e' }, fl)
+    ({ st with e := e' }, fl ++ E2EStream.stallFails bl)
 
 def monFinish (st : St) : List String :=
   [s!"STAT stream=daemon started={if st.started then 1 else 0} files={st.e.files} decodedframes={st.e.frames} prefiles={st.pre.length} " ++
